@@ -43,6 +43,9 @@ class Cfg:
         self.key_size = 32
         self.start = None               # preset (client_counter, server_counter) base ids for substream 0 wrap tests
         self.access_key = ""
+        self.minor_version = None       # None = library default
+        self.supported_functions = None
+        self.ticket_version = None
         self.__dict__.update(kw)
 
     def settings(self):
@@ -61,6 +64,12 @@ class Cfg:
         s["kerberos.key_size"] = self.key_size
         if self.access_key:
             s["prudp.access_key"] = self.access_key
+        if self.minor_version is not None:
+            s["prudp.minor_version"] = self.minor_version
+        if self.supported_functions is not None:
+            s["prudp.supported_functions"] = self.supported_functions
+        if self.ticket_version is not None:
+            s["kerberos.ticket_version"] = self.ticket_version
         return s
 
     def describe(self):
@@ -104,7 +113,10 @@ class Session:
     pass
 
 
-def run_session(cfg, seed, script, fate_factory, phases_gap=None, yield_on_send=False, max_time=600.0, end_order="client-first"):
+def run_session(cfg, seed, script, fate_factory, phases_gap=None, yield_on_send=False, max_time=600.0, end_order="client-first",
+                cfg_s=None, creds_fn=None, setup=None, server_key=b"server key"):
+    """cfg_s: the server's configuration when it differs from the client's; creds_fn(settings, rng, sim) -> (credentials, session key)
+    overrides the honest ticket; setup(sim, out) is called before the session starts (injection hooks: sim.net.on_tx / on_rx / inject)."""
     """script: list of phases; phase = list of (side 'c'|'s', substream, message bytes | ('u', bytes) for unreliable).
     fate_factory(sim, rng) -> fate function. Returns a Session with the trace."""
     rng = random.Random(seed)
@@ -112,11 +124,18 @@ def run_session(cfg, seed, script, fate_factory, phases_gap=None, yield_on_send=
     out.cfg, out.seed, out.script = cfg, seed, script
     with Sim(seed) as sim:
         s = cfg.settings()
+        ss = (cfg_s or cfg).settings()
+        out.cfg_s = cfg_s or cfg
+        out.settings_s = ss
         sim.install_factories()
         sim.net.fate = fate_factory(sim, random.Random(rng.random()))
         creds, session_key = (None, b"")
-        if cfg.credentials:
+        if creds_fn is not None:
+            creds, session_key = creds_fn(s, random.Random(rng.random()), sim)
+        elif cfg.credentials:
             creds, session_key = make_credentials(s, random.Random(rng.random()), cfg.key_size)
+        if setup is not None:
+            setup(sim, out)
         out.session_key = session_key
         nsub = cfg.max_substream + 1
         got = {("c", k): [] for k in range(nsub)}      # delivered AT side
@@ -184,6 +203,7 @@ def run_session(cfg, seed, script, fate_factory, phases_gap=None, yield_on_send=
             if cfg.start:
                 client.sequence_mgr.counters[0].next_id = cfg.start[1]
                 client.sliding_windows[0].next = cfg.start[0]
+                sim.net.log.append(("app", sim.now(), "s", "preset", cfg.start[1], cfg.start[0]))
             async with anyio.create_task_group() as tg:
                 for k in range(client.max_substream_id + 1):
                     tg.start_soon(reader, "s", client, k)
@@ -200,7 +220,7 @@ def run_session(cfg, seed, script, fate_factory, phases_gap=None, yield_on_send=
         out.epoch = sim.epoch
 
         async def main():
-            async with prudp.serve(handler, s, SERVER[0], SERVER[1], key=b"server key" if cfg.credentials else None):
+            async with prudp.serve(handler, ss, SERVER[0], SERVER[1], key=server_key if (cfg_s or cfg).credentials else None):
                 try:
                     sim.net.log.append(("app", sim.now(), "c", "connect", 0, b""))
                     async with prudp.connect(s, SERVER[0], SERVER[1], credentials=creds) as client:
@@ -218,6 +238,7 @@ def run_session(cfg, seed, script, fate_factory, phases_gap=None, yield_on_send=
                         if cfg.start:
                             client.sequence_mgr.counters[0].next_id = cfg.start[0]
                             client.sliding_windows[0].next = cfg.start[1]
+                            sim.net.log.append(("app", sim.now(), "c", "preset", cfg.start[0], cfg.start[1]))
                         out.local = {"c": (client.local_session_id,), "s": (ep["s"].local_session_id,)}
                         async with anyio.create_task_group() as tg:
                             for k in range(client.max_substream_id + 1):
@@ -258,6 +279,17 @@ def run_session(cfg, seed, script, fate_factory, phases_gap=None, yield_on_send=
             out.crash = repr(e)
             out.timed_out = False
         out.netlog = sim.net.log
+        # creation randomness of the PRUDPClient objects, in creation order (client first, then server-side connections)
+        vals = [v for (_, _, v) in sim.prudp_rand.log]
+        g = 3 if (cfg.transport == "udp" and cfg.version != 0) else 2
+        groups = [vals[i:i + g] for i in range(0, len(vals), g)]
+        def norm(gr):
+            return (gr[0], gr[1], gr[2]) if g == 3 else (1, gr[0], gr[1])
+        out.rnd_groups = [norm(gr) for gr in groups if len(gr) == g]
+        if out.rnd_groups:
+            out.rnd.setdefault("c", out.rnd_groups[0])
+        if len(out.rnd_groups) > 1:
+            out.rnd.setdefault("s", out.rnd_groups[1])
         out.got, out.gotu, out.ends = got, gotu, ends
         out.checkpoints = checkpoints
         out.errors = errors
